@@ -282,6 +282,12 @@ class _Session:
 
                 screen = NoHookScreen(input=W.SimTTYIn(tty), output=out, bracketed_paste_mode=cfg.get("paste", False), focus_reporting=cfg.get("focus", False))
             self.screen = screen
+            if cfg.get("sigkeys_before"):
+                # signal keys changed BEFORE the screen is started stay changed ("if this function is called after
+                # start() ... the original settings will be restored"): the tty state at start() is the baseline
+                screen.tty_signal_keys("undefined", None, None, None, "undefined", tty.fd)
+                tty.initial_attrs = W._copy_attrs(tty.attrs)  # noqa: SLF001
+                res.probe("signal_keys_changed_before_start")
             orig_clear = screen.clear
 
             def clear():
@@ -504,6 +510,16 @@ class _Session:
             h = alarm_handles.get(int(action[7:]))
             if h is not None:
                 ml.remove_alarm(h)
+        elif action == "sigkeys":
+            # the application unmaps the tty's signal keys while the screen is started: "the original settings will
+            # be restored when stop() is called" (tty_signal_keys docstring); check_restored compares the termios state
+            self.screen.tty_signal_keys("undefined", "undefined", "undefined", "undefined", "undefined", self.tty.fd)
+            self.world.log.add("app", "tty_signal_keys")
+            self.res.probe("signal_keys_changed_during_session")
+        elif action in ("mouse_off", "mouse_on"):
+            self.screen.set_mouse_tracking(action == "mouse_on")
+            self.world.log.add("app", action)
+            self.res.probe("mouse_tracking_toggled_during_session")
         elif action == "noop":
             pass
 
@@ -775,6 +791,7 @@ class SessionEngine(Engine):
             "paste": rng.random() < 0.3,
             "focus": rng.random() < 0.3,
             "termios": rng.randrange(4),
+            "sigkeys_before": rng.random() < 0.08,
             "handlers": [rng.choice(["default", "default", "ignore", "func"]) for _ in range(3)],
             "tiebreak": [rng.randrange(4) for _ in range(8)],
             "items": [rng.choice(["edit", "text", "button", "check", "div", "popup"]) for _ in range(rng.randint(1, 5))],
@@ -814,6 +831,8 @@ class SessionEngine(Engine):
                 events.append({"ev": "sigwinch", "t": t, "cols": c2, "rows": r2})
             elif r < 0.85:
                 do = rng.choice(["edit", "edit", "noop", "set:0.125", "set:0", f"remove:{rng.randrange(aid + 1)}"])
+                if rng.random() < 0.12:
+                    do = rng.choice(["sigkeys", "mouse_off", "mouse_on"])
                 events.append({"ev": rng.choice(["alarm_in", "alarm_in", "alarm_at"]), "t": t, "id": aid, "do": do})
                 aid += 1
             elif r < 0.93:
